@@ -64,17 +64,24 @@ Remember(sn, c) ==
     ELSE LET i == CHOOSE i \in idx : TRUE IN [sn EXCEPT ![i].seqs = @ \cup CSeqs(c)]
 
 (* a changeset arrives on the channel *)
+Enqueue(c) ==
+    LET full == Len(queue) >= QLen
+        d == Head(queue)
+        q1 == IF full THEN Tail(queue) ELSE queue
+        s1 == IF full THEN Evict(seen, IF FixS3 THEN d.a ELSE c.a, d) ELSE seen
+    IN /\ queue' = Append(q1, c)
+       /\ seen' = Remember(s1, c)
+       /\ bufCost' = (IF full THEN bufCost - Cost(d) ELSE bufCost) + Cost(c)
+       /\ UNCHANGED <<inflight, known, part>>
 Recv(c) ==
     /\ ~SpawnEnabled
-    /\ IF Suppressed(c) \/ Held(c) THEN UNCHANGED vars
-       ELSE LET full == Len(queue) >= QLen
-                d == Head(queue)
-                q1 == IF full THEN Tail(queue) ELSE queue
-                s1 == IF full THEN Evict(seen, IF FixS3 THEN d.a ELSE c.a, d) ELSE seen
-            IN /\ queue' = Append(q1, c)
-               /\ seen' = Remember(s1, c)
-               /\ bufCost' = (IF full THEN bufCost - Cost(d) ELSE bufCost) + Cost(c)
-               /\ UNCHANGED <<inflight, known, part>>
+    /\ IF Suppressed(c) \/ Held(c) THEN UNCHANGED vars ELSE Enqueue(c)
+(* the loop reads the bookkeeping and enqueues in two steps: a batch that is still in flight may commit the very      *)
+(* version in between, so a changeset that is held by now is enqueued all the same (a harmless duplicate)             *)
+InFlightTouches(c) == \E i \in 1..Len(inflight) : \E j \in 1..Len(inflight[i]) : inflight[i][j].a = c.a /\ inflight[i][j].v = c.v
+RecvLate(c) ==
+    /\ ~SpawnEnabled /\ ~Suppressed(c) /\ Held(c) /\ InFlightTouches(c)
+    /\ Enqueue(c)
 
 (* top of the loop: hand a batch to process_multiple_changes *)
 Spawn ==
@@ -118,7 +125,7 @@ Done(i) ==
     /\ inflight' = [j \in 1..(Len(inflight) - 1) |-> IF j < i THEN inflight[j] ELSE inflight[j + 1]]
     /\ UNCHANGED <<queue, bufCost, seen, known, part>>
 
-Next == \/ \E c \in Changes : Recv(c)
+Next == \/ \E c \in Changes : Recv(c) \/ RecvLate(c)
         \/ Spawn \/ Tick
         \/ \E i \in 1..MaxInflight : Commit(i) \/ Done(i)
 Spec == Init /\ [][Next]_vars
